@@ -117,6 +117,7 @@ def generate(rng, focus, tier="quick"):
         "assets": assets,
         "np_quotes": rng.random() < 0.5,
         "quotes0": {a: list(_quote(rng)) for a in assets},
+        "ccy": rng.choice(["USD", "USD", "GBP", "EUR"]),
     }
     ops = []
     sh = {"pids": [], "now": start, "pending": 0, "held": set(), "quotes": dict(
@@ -363,7 +364,8 @@ def _build(cfg):
         s.rate = frac(fee["c"]) + frac(fee["t"])
     t0 = ts(cfg["start"])
     s.exchange = SimulatedExchange(t0)
-    s.broker = SimulatedBroker(t0, s.exchange, s.qb, account_id="sim",
+    s.ccy = cfg.get("ccy", "USD")
+    s.broker = SimulatedBroker(t0, s.exchange, s.qb, account_id="sim", base_currency=s.ccy,
                                initial_funds=cfg["initial_funds"], fee_model=s.fee)
     s.captured = []       # transactions seen at the portfolio seam during the current op
     return s
@@ -433,7 +435,7 @@ def _resolve_amt(spec, s, m, pid):
     if "v" in spec:
         return float(spec["v"])
     if spec["of"] == "master":
-        base = float(s.broker.get_account_cash_balance("USD"))
+        base = float(s.broker.get_account_cash_balance(s.ccy))
     else:
         if pid in s.broker.portfolios:
             base = float(s.broker.get_portfolio_cash_balance(pid))
@@ -623,7 +625,7 @@ class Exec(object):
     def op_awd(self, op):
         s, m, ctx = self.s, self.m, self.ctx
         amt = _resolve_amt(op["amt"], s, m, None)
-        bal = float(s.broker.get_account_cash_balance("USD"))
+        bal = float(s.broker.get_account_cash_balance(s.ccy))
         faults = []
         if amt < 0:
             faults.append("neg_amount")
@@ -683,7 +685,7 @@ class Exec(object):
             allowed.append(KeyError)
         else:
             if sub:
-                bal = float(s.broker.get_account_cash_balance("USD"))
+                bal = float(s.broker.get_account_cash_balance(s.ccy))
                 if amt > bal:
                     faults.append("overfund_portfolio")
                     allowed.append(ValueError)
@@ -1167,7 +1169,7 @@ class Exec(object):
         step = ctx.step
         # master and other currencies
         try:
-            bal = b.get_account_cash_balance("USD")
+            bal = b.get_account_cash_balance(s.ccy)
             allb = dict(b.get_account_cash_balance())
         except Exception as e:
             ctx.violate("C01", "cash_getter_raised", {"exc": repr(e)[:200]})
@@ -1177,7 +1179,7 @@ class Exec(object):
                          sig="master_cash_mismatch"):
             return
         for ccy, v in allb.items():
-            if ccy != "USD":
+            if ccy != s.ccy:
                 ctx.check("C01", float(v) == 0.0, "foreign_currency_balance_moved",
                           lambda: {"ccy": ccy, "value": float(v)})
         hx = fhex(bal)
